@@ -34,6 +34,12 @@ CHECKS = {
     "C15": ("model_checking", E2 + " (registry histories from a harness-made hard reset vs reference registry)",
             "Explicit-state BFS over histories of register_element / remove_elements / reset / set_default_values / reset_default_parameter_values with eight user definitions (valid, duplicate symbol, grossly and subtly inconsistent impedance, shadowing, prefix-sharing, invalid symbols) to depth 4 (7); after every transition get_elements in all flag combinations, every built-in default, 16 parse probes and instance defaults are compared with a reference registry; futures after reset are covered because search continues from the reset state and the canonical state includes the module-internal dicts.",
             "Every history is replayed from a hard reset done by the harness, not by the reset() under test; re-registering built-in class objects is outside the alphabet.", "DESIGN.md section 4, C15"),
+    "C16": ("exploration", E1 + " (all small circuits x type/label patterns + long chains; symbol<->element differential oracle)",
+            "Every canonical skeleton <= 3 (4) leaves and the object-only shapes x every filling from six entries (repeated types, containers with nested sub-circuits, a container in a container) x nine label patterns, plus chains/ladders of 12-22 elements (shared decimal suffixes of running identifiers); identifier bijections against an independent traversal, name uniqueness, validate_circuit, fit identifiers, symbol<->element differential on Circuit.to_sympy(), CircuiTikZ labels, and the parameter table of a short real fit on a subset. Exhaustive per bound.",
+            "Fits are short (max_nfev=15) and only used to read the table back; the symbolic differential is skipped when the user assigned duplicate labels.", "DESIGN.md section 4, C16"),
+    "C20": ("exploration", E1 + " (all small simulable circuits x labels; totality and structural oracles on the exports)",
+            "Every canonical skeleton <= 3 leaves over a 9-entry palette, object-only shapes, 4 (5) leaves over reduced palettes, and 17 labels at every position of four small circuits: to_sympy, to_sympy(substitute), to_latex, to_circuitikz (3 option sets), to_drawing and to_stack must return; variable counts, balanced begin/end, one drawn component per connection element named as the circuit names it, finite coordinates. Exhaustive per bound.",
+            "Only circuits that simulate are judged; layout quality of diagrams is outside the property.", "DESIGN.md section 4, C20"),
 }
 
 NOT_YET = "check not built yet in this round (planned, see DESIGN.md section 4)"
